@@ -150,6 +150,7 @@ def _getdistances(rep):
     get_distances, shared with C10)"""
     from props import C10
     C10._getdistances(rep)
+    C10._wrapper(rep)
 
 
 def _classify(rep, seed_modes=("cm", "index"), tol_modes=("relative", "absolute")):
@@ -180,6 +181,10 @@ def _classify(rep, seed_modes=("cm", "index"), tol_modes=("relative", "absolute"
                 at0 = st.ghost["input"]
                 st.prove(site + ".pre.classified-on-a-wrapped-copy", z3.BoolVal(isinstance(sysm, SymAtoms) and sysm is not at0 and sysm.origin is at0
                                                                                   and sysm.mutations == ["wrap"]))
+                # a pre-computed matrix must be the matrix of exactly this (wrapped) structure
+                Mx = bound.get("dist_matrix_radii_mic_1x")
+                if Mx is not None:
+                    st.prove(site + ".pre.distance-matrix-is-the-one-of-the-wrapped-copy", z3.BoolVal(st.ghost.get("distances_of") is sysm))
                 for cand in (None, 0, 1, 2, 3):
                     d = st.fresh("dim_is_%s" % cand, "bool")
                     if st.fork(d):
@@ -319,6 +324,20 @@ def replay_key(ob):
     return "c17"
 
 
+def _displaced():
+    from ase.build import graphene
+    g3 = graphene(vacuum=8).repeat((3, 3, 1))
+    g3.set_pbc([True, True, False])
+    rng = np.random.default_rng(4)
+    p = g3.get_positions()
+    c = np.array(g3.get_cell())
+    for i in range(len(g3)):
+        k = rng.integers(-5, 6, size=2)
+        p[i] += k[0] * c[0] + k[1] * c[1]
+    g3.set_positions(p)
+    return g3
+
+
 def replay(ob):
     """native: classify on the C01 structure family; class vs get_dimensionality of the wrapped structure; views; input frame"""
     import matid.geometry as g
@@ -336,6 +355,8 @@ def replay(ob):
              ("one-atom sc Po cell, unwrapped atom", Atoms("Po", positions=[[3.9, -0.2, 0.1]], cell=[3.35, 3.35, 3.35], pbc=True)),
              ("one-atom Cu monolayer", Atoms("Cu", positions=[[0, 0, 6]], cell=[[2.55, 0, 0], [1.275, 2.2084, 0], [0, 0, 12]], pbc=[True, True, False])),
              ("one-atom Au chain", Atoms("Au", positions=[[0, 5, 5]], cell=[2.6, 10, 10], pbc=[True, False, False])),
+             # atoms stored several lattice vectors away from the cell
+             ("graphene 3x3, atoms displaced by lattice vectors", _displaced()),
              # bonded only through the cell boundary, in partially periodic cells
              ("C sheet bonded across the boundary", Atoms("C2", scaled_positions=[[0.1, 0.1, 0.5], [0.9, 0.9, 0.5]], cell=[5.2, 5.2, 15], pbc=[True, True, False])),
              ("C ladder bonded across the boundary", Atoms("C2", scaled_positions=[[0.5, 0.5, 0.12], [0.5, 0.5, 0.88]], cell=[12, 12, 5.6], pbc=[False, False, True]))]
